@@ -40,6 +40,15 @@ fn fe_prog(steps: &[&str]) -> Vec<String> {
         let r = |i: usize| -> usize { usz(p[i]) };
         match p[0] {
             "in" => regs.push(Fe::from_bytes(&a32(&expand(p[1])))),
+            // the public field constants
+            "k" => regs.push(match p[1] {
+                "ZERO" => Fe::ZERO,
+                "ONE" => Fe::ONE,
+                "SQRTM1" => Fe::SQRTM1,
+                "D" => Fe::D,
+                "D2" => Fe::D2,
+                _ => panic!("bad constant"),
+            }),
             "add" => {
                 let v = &regs[r(1)] + &regs[r(2)];
                 regs.push(v)
@@ -299,6 +308,16 @@ pub fn run(op: &str, a: &[&str]) -> Vec<String> {
             vec![tf(ed25519::verify(&m, &pk, &sig)), tf(Ge::from_bytes(&pk).is_some())]
         }
         "fe" => fe_prog(a),
+        // consts : encodings of the public constants of the arithmetic types
+        "consts" => vec![
+            hex(&Fe::ZERO.to_bytes()),
+            hex(&Fe::ONE.to_bytes()),
+            hex(&Fe::SQRTM1.to_bytes()),
+            hex(&Fe::D.to_bytes()),
+            hex(&Fe::D2.to_bytes()),
+            hex(&Scalar::ZERO.to_bytes()),
+            hex(&Ge::ZERO.to_bytes()),
+        ],
         "sc_reduce" => vec![hex(&Scalar::reduce_from_wide_bytes(&a64(&expand(a[0]))).to_bytes())],
         "sc_canon" => vec![match Scalar::from_bytes_canonical(&a32(&expand(a[0]))) {
             Some(s) => hex(&s.to_bytes()),
